@@ -2,8 +2,8 @@
 // bcrypt feature (C14): every public step decided as ONE step from an ARBITRARY pre-state (P, S fully symbolic) against
 // the oracle's step (refmodels::blowfish: Schneier expansion / eksblowfish ExpandKey of Provos-Mazieres); induction over
 // the steps then covers any sequence of steps such as bcrypt's cost loop.  The expansions use the co-routine stub of
-// expand.rs (block encryption uninterpreted per call, full state compared at every call); bc_encrypt is direct.
-use super::conf::{arb_state, STATE};
+// expand.rs (block encryption uninterpreted per call; see expand.rs for what is compared when); bc_encrypt is direct.
+use super::conf::{arb_state, stub_rf, uf_f, STATE};
 use super::expand::{co, state_eq, stub_encrypt};
 use super::prelude::*;
 use crate::Blowfish;
@@ -36,14 +36,18 @@ verif_harness! {
     }
 }
 
-//@ harness name=bc_encrypt prop=C14,C20 tier=quick bits=33408 est=120 desc="D: bc_encrypt([l, r]) on an arbitrary state == Schneier's Blowfish encryption of the word pair under that state's P and S, all (l, r)"
+//@ harness name=bc_encrypt prop=C14,C20 tier=quick bits=33408 stub=1 est=60 desc="W: bc_encrypt([l, r]) on an arbitrary state == Schneier's Blowfish encryption of the word pair under that state's P and S, all (l, r); round_function uninterpreted and shared with the oracle (leaf lemma bf_round_function, conf.rs)"
 verif_harness! {
     name: bc_encrypt,
     bytes: STATE + 8,
     unwind: 258,
+    stubs: [(crate::Blowfish::round_function, stub_rf)],
     prop: |inp| {
         let c: Blowfish<BE> = arb_state(inp);
         let lr = [take_u32(inp, STATE), take_u32(inp, STATE + 4)];
+        #[cfg(kani)]
+        let e = r::encipher_with(&c.p, lr, uf_f::call);
+        #[cfg(not(kani))]
         let e = r::encipher(&c.p, &c.s, lr);
         let o = c.bc_encrypt(lr);
         Some(o[0] == e[0] && o[1] == e[1])
@@ -55,12 +59,15 @@ const PLAIN_VS_PLAIN: u8 = 0; // bc_expand_key(key)                    vs Schnei
 const SALTED_VS_EKS: u8 = 1; //  salted_expand_key(salt, key)          vs eksblowfish ExpandKey(state, salt, key)
 const ZERO_SALT_VS_PLAIN: u8 = 2; // salted_expand_key(0^slen, key)    vs Schneier expansion
 
-fn step(inp: &[u8], mode: u8) -> Option<bool> {
+/// `slen16`: the salt has bcrypt's fixed length of 16 bytes (all reads at constant positions); otherwise its length is
+/// symbolic in 1..=16 (every salt byte read is a symbolic-index access on both sides: 8336 of them, which needs more
+/// than the quick tier's 14 GB during propositional reduction).
+fn step(inp: &[u8], mode: u8, slen16: bool) -> Option<bool> {
     let mut c: Blowfish<BE> = arb_state(inp);
     let key: [u8; 72] = take(inp, STATE);
     let klen = inp[STATE + 72] as usize;
     let mut salt: [u8; 16] = take(inp, STATE + 73);
-    let slen = inp[STATE + 89] as usize;
+    let slen = if slen16 { 16 } else { inp[STATE + 89] as usize };
     vassume!(1 <= klen && klen <= 72);
     vassume!(1 <= slen && slen <= 16);
     if mode == ZERO_SALT_VS_PLAIN {
@@ -93,29 +100,47 @@ fn step(inp: &[u8], mode: u8) -> Option<bool> {
     }
 }
 
-//@ harness name=bc_expand_key_w prop=C14,C20 tier=quick bits=33928 stub=1 est=300 desc="W: bc_expand_key(key[..klen]) from an arbitrary pre-state == Schneier's key expansion from that state (= ordinary Blowfish keying when the pre-state is bc_init_state), klen symbolic 1..=72 (only the first 72 bytes of the cycled key are ever used), co-routine stub with full state comparison at each of the 521 calls"
+//@ harness name=bc_expand_key_w prop=C14,C20 tier=quick bits=33928 stub=1 est=300 desc="W: bc_expand_key(key[..klen]) from an arbitrary pre-state == Schneier's key expansion from that state (= ordinary Blowfish keying when the pre-state is bc_init_state), klen symbolic 1..=72 (only the first 72 bytes of the cycled key are ever used), co-routine stub: arguments, P array and newest stored pair compared at each of the 521 calls, full state at calls 0/9/137/265/393 and at the end"
 verif_harness! {
     name: bc_expand_key_w,
     bytes: STATE + 90,
     unwind: 260,
     stubs: [(crate::Blowfish::encrypt, stub_encrypt)],
-    prop: |inp| { step(inp, PLAIN_VS_PLAIN) }
+    prop: |inp| { step(inp, PLAIN_VS_PLAIN, true) }
 }
 
-//@ harness name=bc_salted_w prop=C14,C20 tier=quick bits=34064 stub=1 est=400 desc="W: salted_expand_key(salt[..slen], key[..klen]) from an arbitrary pre-state == eksblowfish ExpandKey(state, salt, key): P ^= cycled key, then each of the 521 blocks = Enc(previous block ^ next 64 bits of the cycled salt) stored in order; slen symbolic 1..=16, klen symbolic 1..=72, co-routine stub with full state comparison at each call"
+//@ harness name=bc_salted_w prop=C14,C20 tier=quick bits=34056 stub=1 est=400 desc="W: salted_expand_key(salt, key[..klen]) for a 16-byte salt (bcrypt's salt size) from an arbitrary pre-state == eksblowfish ExpandKey(state, salt, key): P ^= cycled key, then each of the 521 blocks = Enc(previous block ^ next 64 bits of the cycled salt) stored in order; all salt bytes, klen symbolic 1..=72, co-routine stub (checks as bc_expand_key_w)"
 verif_harness! {
     name: bc_salted_w,
     bytes: STATE + 90,
     unwind: 260,
     stubs: [(crate::Blowfish::encrypt, stub_encrypt)],
-    prop: |inp| { step(inp, SALTED_VS_EKS) }
+    prop: |inp| { step(inp, SALTED_VS_EKS, true) }
 }
 
-//@ harness name=bc_zero_salt_w prop=C14 tier=quick bits=33928 stub=1 est=400 desc="W: salted_expand_key(all-zero salt of any length 1..=16, key) from an arbitrary pre-state == Schneier's (unsalted) expansion == bc_expand_key (by bc_expand_key_w), klen symbolic 1..=72"
+//@ harness name=bc_zero_salt_w prop=C14 tier=quick bits=33920 stub=1 est=400 desc="W: salted_expand_key(16 zero bytes, key) from an arbitrary pre-state == Schneier's (unsalted) expansion == bc_expand_key (by bc_expand_key_w), klen symbolic 1..=72"
 verif_harness! {
     name: bc_zero_salt_w,
     bytes: STATE + 90,
     unwind: 260,
     stubs: [(crate::Blowfish::encrypt, stub_encrypt)],
-    prop: |inp| { step(inp, ZERO_SALT_VS_PLAIN) }
+    prop: |inp| { step(inp, ZERO_SALT_VS_PLAIN, true) }
+}
+
+//@ harness name=bc_salted_anylen_w prop=C14,C20 tier=thorough bits=34064 stub=1 est=1500 mem=30 desc="W: as bc_salted_w with the salt length symbolic in 1..=16 (salt bytes cycled)"
+verif_harness! {
+    name: bc_salted_anylen_w,
+    bytes: STATE + 90,
+    unwind: 260,
+    stubs: [(crate::Blowfish::encrypt, stub_encrypt)],
+    prop: |inp| { step(inp, SALTED_VS_EKS, false) }
+}
+
+//@ harness name=bc_zero_salt_anylen_w prop=C14 tier=thorough bits=33928 stub=1 est=1500 mem=30 desc="W: as bc_zero_salt_w with an all-zero salt of symbolic length 1..=16"
+verif_harness! {
+    name: bc_zero_salt_anylen_w,
+    bytes: STATE + 90,
+    unwind: 260,
+    stubs: [(crate::Blowfish::encrypt, stub_encrypt)],
+    prop: |inp| { step(inp, ZERO_SALT_VS_PLAIN, false) }
 }
